@@ -110,7 +110,7 @@ pub fn run_c10(out: &mut Out, tier: &str, rng: &mut Rng) {
         for _ in 0..nd {
             let t = if timed { Some(1500) } else { *rng.pick(&[None, Some(3_600_000u64), Some(0)]) };
             let d = known_driver(rng, t);
-            if drivers.iter().any(|x: &DriverCfg| x.da == d.da) || d.product == "ecm" {
+            if drivers.iter().any(|x: &DriverCfg| x.da == d.da) {
                 continue;
             }
             drivers.push(d);
@@ -168,6 +168,66 @@ pub fn run_c10(out: &mut Out, tier: &str, rng: &mut Rng) {
     }
 }
 
+/// C01 at the authority level: the latest motion command governs what every hydraulic unit is sent, whatever the
+/// bus traffic and whether or not the unit is currently heard (timeouts absent / expired / far away).
+pub fn run_c01_auth(out: &mut Out, tier: &str, rng: &mut Rng) {
+    let thorough = tier == "thorough";
+    for rep in 0..(if thorough { 300 } else { 40 }) {
+        let mut drivers = vec![];
+        let nh = 1 + rng.below(2);
+        for k in 0..nh {
+            let timeout = *rng.pick(&[None, Some(0u64), Some(3_600_000)]);
+            drivers.push(DriverCfg { da: 0x4A + k as u8, sa: if rng.chance(1, 4) { Some(0x31) } else { None }, timeout, vendor: "laixer".into(), product: "hcu".into() });
+        }
+        if rng.chance(1, 2) {
+            drivers.push(DriverCfg { da: 0x12, sa: None, timeout: Some(0), vendor: "laixer".into(), product: "vcu".into() });
+        }
+        let cfg = NetCfg { address: 0x27, name: default_name(), drivers };
+        let mut rig = match Rig::new(&cfg) {
+            Ok(r) => r,
+            Err(()) => continue,
+        };
+        let mut h = Hist { rig: &mut rig, ins: vec![], outs: vec![] };
+        h.setup();
+        if rep % 4 != 0 {
+            h.cycle();
+        }
+        let len = 4 + rng.below(if thorough { 40 } else { 16 });
+        for _ in 0..len {
+            match rng.below(8) {
+                0 | 1 => h.cycle(),
+                2 | 3 => {
+                    let m = match rng.below(5) {
+                        0 => Motion::StopAll,
+                        1 => Motion::ResumeAll,
+                        2 => Motion::ResetAll,
+                        _ => fmt::rand_motion(rng),
+                    };
+                    h.motion(&m);
+                    out.count("authority history: motion command");
+                }
+                4 => {
+                    // the unit reports its own lock state (which must not override the command)
+                    let d = cfg.drivers[0].clone();
+                    let raw = raw_of(make_id(6, 65288, 0, d.da), &[*rng.pick(&[0x14u8, 0x16]), 0xFF, rng.below(2) as u8, 0xFF, 1, 0, 0, 0]);
+                    h.frame(&raw);
+                    out.count("authority history: unit status frame");
+                }
+                5 => {
+                    let raw = raw_of(make_id(6, *rng.pick(&[65288u32, 61444, 45824, 40960]), 0x27, *rng.pick(&[0x99u8, 0x27, 0x4B])), &[rng.byte(), rng.byte(), rng.byte(), rng.byte(), 0, 0, 0, 0]);
+                    h.frame(&raw);
+                }
+                6 => h.engine(&Engine { driver_demand: 0, actual_engine: 0, rpm: 1000, state: EngineState::Request }),
+                _ => h.cycle(),
+            }
+        }
+        h.cycle();
+        h.cycle();
+        let (ins, outs) = (h.ins.join(" "), h.outs.join(" "));
+        out.case(&format!("auth {} {}", cfg.tok(), ins), &outs, true);
+    }
+}
+
 pub fn run_c06_auth(out: &mut Out, tier: &str, rng: &mut Rng) {
     // raw can_frames with every DLC 0..8 into the real NetworkAuthority::recv, then a cycle and a command
     let thorough = tier == "thorough";
@@ -175,7 +235,8 @@ pub fn run_c06_auth(out: &mut Out, tier: &str, rng: &mut Rng) {
         address: 0x27,
         name: default_name(),
         drivers: vec![
-            DriverCfg { da: 0x4A, sa: None, timeout: Some(250), vendor: "laixer".into(), product: "hcu".into() },
+            // timeouts that cannot expire during the run: the model clock does not advance in these histories
+            DriverCfg { da: 0x4A, sa: None, timeout: Some(3_600_000), vendor: "laixer".into(), product: "hcu".into() },
             DriverCfg { da: 0x12, sa: None, timeout: None, vendor: "laixer".into(), product: "vcu".into() },
             DriverCfg { da: 0x00, sa: Some(0x11), timeout: None, vendor: "volvo".into(), product: "d7e".into() },
             DriverCfg { da: 0x7A, sa: None, timeout: None, vendor: "kübler".into(), product: "inclinometer".into() },
@@ -200,6 +261,27 @@ pub fn run_c06_auth(out: &mut Out, tier: &str, rng: &mut Rng) {
             h.frame(&raw);
             out.count(&format!("auth frame dlc={}", dlc));
         }
+        // frames a configured unit really sends (and requests to the daemon itself), cut short at every length:
+        // each short frame is followed by the same frame written out with its 0xFF padding — the two must be
+        // handled identically (clause short_frame_as_padded)
+        for _ in 0..6 {
+            let full: [u8; 16] = if rng.chance(1, 4) {
+                let req = *rng.pick(&[60928u32, 65242, 65254]);
+                raw_of(make_id(6, 59904, 0x27, *rng.pick(&[0x10u8, 0x4A])), &[(req & 0xFF) as u8, (req >> 8) as u8, (req >> 16) as u8, 0xFF, 0xFF, 0xFF, 0xFF, 0xFF])
+            } else {
+                let d = rng.pick(&cfg.drivers).clone();
+                frame_from_unit(rng, &d)
+            };
+            let id = u32::from_le_bytes([full[0], full[1], full[2], full[3]]);
+            let k = rng.below(8) as usize;
+            let mut short = [0u8; 8];
+            short[..k].copy_from_slice(&full[8..8 + k]);
+            let mut padded = [0xFFu8; 8];
+            padded[..k].copy_from_slice(&full[8..8 + k]);
+            h.frame(&crate::bus::Bus::raw(id, k as u8, &short));
+            h.frame(&crate::bus::Bus::raw(id, 8, &padded));
+            out.count(&format!("auth unit frame cut to dlc={}", k));
+        }
         h.cycle();
         h.motion(&if rep % 2 == 0 { Motion::StopAll } else { fmt::rand_motion(rng) });
         h.engine(&Engine { driver_demand: 0, actual_engine: 0, rpm: 1200, state: EngineState::Request });
@@ -216,12 +298,12 @@ pub fn run_c16_auth(out: &mut Out, tier: &str, rng: &mut Rng) {
         let mut drivers = vec![];
         for k in 0..rng.below(4) {
             // silent units too: a 0 ms timeout has always expired when teardown runs
-            let timeout = *rng.pick(&[Some(250u64), Some(0), None]);
+            let timeout = *rng.pick(&[Some(3_600_000u64), Some(0), None]);
             drivers.push(DriverCfg { da: 0x4A + k as u8, sa: if rng.chance(1, 3) { Some(0x30) } else { None }, timeout, vendor: "laixer".into(), product: "hcu".into() });
         }
         for _ in 0..rng.below(3) {
-            let d = known_driver(rng, Some(1000));
-            if d.product != "hcu" && d.product != "ecm" && !drivers.iter().any(|x: &DriverCfg| x.da == d.da) {
+            let d = known_driver(rng, Some(3_600_000));
+            if d.product != "hcu" && !drivers.iter().any(|x: &DriverCfg| x.da == d.da) {
                 drivers.push(d);
             }
         }
@@ -347,6 +429,17 @@ pub fn run_c20(out: &mut Out, tier: &str, rng: &mut Rng) {
                     name: [net.name.manufacturer_code as u32, net.name.function_instance as u32, net.name.ecu_instance as u32, net.name.function as u32, net.name.vehicle_system as u32, net.name.vehicle_system_instance as u32, net.name.industry_group as u32],
                     drivers: net.driver.iter().map(|d| DriverCfg { da: d.da, sa: d.sa, timeout: d.timeout, vendor: d.vendor.clone(), product: d.product.clone() }).collect(),
                 };
+                // construction (with the two clones) of the configuration exactly as shipped
+                match Rig::new(&cfg) {
+                    Err(()) => out.case(&format!("new {}", cfg.tok()), "PANIC 0", true),
+                    Ok(_) => out.case(&format!("new {}", cfg.tok()), &format!("ok {}", cfg.drivers.len()), true),
+                }
+                // the history runs with the shipped timeouts (250 / 1000 ms) stretched so that they cannot expire under
+                // load: the model clock does not advance in this history
+                let mut cfg = cfg;
+                for d in cfg.drivers.iter_mut() {
+                    d.timeout = d.timeout.map(|_| 3_600_000);
+                }
                 match Rig::new(&cfg) {
                     Err(()) => out.case(&format!("new {}", cfg.tok()), "PANIC 0", true),
                     Ok(mut rig) => {
